@@ -699,6 +699,46 @@ impl<'a> VisitMut for CfgStrip<'a> {
     }
 }
 
+
+/// R8: the pointer idiom "which element of this Vec is this reference" -- exactly these four statements,
+/// token for token --
+///     let nodes_range = self.nodes.as_ptr_range();
+///     let p = node as *const Node<T>;
+///     if !nodes_range.contains(&p) { return None; }
+///     let node_index = (p as usize - nodes_range.start as usize) / mem::size_of::<Node<T>>();
+/// is replaced by one call of the trusted primitive `vx_slice_position` (contracts/00_prelude.rs), whose assumed
+/// specification is what the four statements compute: `None` for a reference outside the buffer, otherwise the
+/// index of the element the reference points to.  Any other spelling is left alone (the body then stays outside
+/// Verus's reach and the function is quarantined as before).
+fn r8_slice_position(block: &mut Block, fired: &mut Vec<String>) {
+    const PAT: [&str; 4] = [
+        "let nodes_range = self.nodes.as_ptr_range();",
+        "let p = node as *const Node<T>;",
+        "if !nodes_range.contains(&p) { return None; }",
+        "let node_index = (p as usize - nodes_range.start as usize) / mem::size_of::<Node<T>>();",
+    ];
+    let pat: Vec<String> = PAT
+        .iter()
+        .map(|t| syn::parse_str::<Block>(&format!("{{ {} }}", t)).expect("R8 pattern").stmts[0].to_token_stream().to_string())
+        .collect();
+    if block.stmts.len() < 4 {
+        return;
+    }
+    for i in 0..=block.stmts.len() - 4 {
+        if (0..4).all(|j| block.stmts[i + j].to_token_stream().to_string() == pat[j]) {
+            let repl: Stmt = parse_quote! {
+                let node_index = match vx_slice_position(&self.nodes, node) {
+                    Some(i) => i,
+                    None => return None,
+                };
+            };
+            block.stmts.splice(i..i + 4, std::iter::once(repl));
+            fired.push("R8:slice-position".into());
+            return;
+        }
+    }
+}
+
 fn process_fn_body(
     file: &str,
     key: &str,
@@ -738,6 +778,7 @@ fn process_fn_body(
     // the signature is rewritten first and kept even if the body has to be given up (R3: `Self::Item`)
     rw.visit_signature_mut(sig);
     let (sig0, block0) = (sig.clone(), block.clone());
+    r8_slice_position(block, &mut rw.fired);
     IN_FN_BODY.with(|c| c.set(true));
     let res = std::panic::catch_unwind(std::panic::AssertUnwindSafe(|| {
         rw.visit_block_mut(block);
